@@ -139,7 +139,9 @@ impl Mix {
             help: 0,
             mv: 26,
             goto: 14,
-            eval: 0,
+            // evals (accepted and refused) as history: label and PC-offset spellings of later
+            // writes resolve through state the evaluator shares
+            eval: 5,
             reset: 1,
             garbage: 2,
             refused_pct: 45,
@@ -778,7 +780,40 @@ pub fn gen_script(rng: &mut Rng, ctx: &Ctx, mix: &Mix, max_len: usize, end: EndS
         }
     }
     let mut break_addrs: Vec<i64> = Vec::new();
-    for _ in 0..n {
+    // A breakpoint on the program's path, a second one a multiple of 16/64/256 words away
+    // (anywhere in user space), the second one removed again: the first must still pause. Placed
+    // at random positions of the script, in this order.
+    let mut planted: Vec<(usize, Cmd)> = Vec::new();
+    if mix.break_add > 0 && mix.break_remove > 0 && !ctx.code_addrs.is_empty() && rng.chance(1, 5) {
+        let on_path = *rng.pick(&ctx.code_addrs) as i64;
+        let step = *rng.pick(&[64i64, 64, 128, 16, 256, 1024]);
+        let lo = ctx.origin().max(0x3000);
+        let mut others: Vec<i64> = Vec::new();
+        for k in 1..8 {
+            for cand in [on_path + k * step, on_path - k * step] {
+                if cand >= lo && cand <= 0xFDFF {
+                    others.push(cand);
+                }
+            }
+        }
+        if !others.is_empty() {
+            let other = *rng.pick(&others);
+            let mut at: Vec<usize> = (0..3).map(|_| rng.usize_below(n + 1)).collect();
+            at.sort();
+            planted.push((at[0], Cmd::BreakAdd(Loc::Abs(on_path))));
+            planted.push((at[1], Cmd::BreakAdd(Loc::Abs(other))));
+            planted.push((at[2], Cmd::BreakRemove(Loc::Abs(other))));
+        }
+    }
+    for position in 0..n {
+        for (at, cmd) in &planted {
+            if *at == position {
+                items.push(Item {
+                    cmd: cmd.clone(),
+                    spell: rng.next_u64(),
+                });
+            }
+        }
         let mut cmd = gen_item(rng, ctx, mix);
         // Breakpoints a multiple of 64 (or 16, 256) words apart from an earlier one: containers
         // that summarise addresses confuse exactly those
@@ -800,11 +835,53 @@ pub fn gen_script(rng: &mut Rng, ctx: &Ctx, mix: &Mix, max_len: usize, end: EndS
                 break_addrs.push(*a);
             }
         }
-        // Biased placement: right after a state-creating command, aim a follow-up at it
+        // Biased placement: right after an evaluation (which shares the symbol table with the
+        // location parser), a write through a label - the one the evaluated text names, if any
+        let mut follow_up: Option<Cmd> = None;
+        if let Cmd::Eval(e) = &cmd {
+            if !ctx.labels.is_empty() && rng.chance(1, 3) {
+                let named = ctx
+                    .labels
+                    .iter()
+                    .find(|l| e.text.split(|c: char| !(c.is_alphanumeric() || c == '_')).any(|w| w == l.0));
+                let (name, _) = named.unwrap_or_else(|| rng.pick(&ctx.labels)).clone();
+                let loc = Loc::Label {
+                    name,
+                    off: if rng.chance(1, 2) { 0 } else { rng.range(-3, 3) },
+                };
+                let mut choices: Vec<Cmd> = Vec::new();
+                if mix.mv > 0 {
+                    choices.push(Cmd::Move(Target::Mem(loc.clone()), gen_value(rng)));
+                }
+                if mix.break_add > 0 {
+                    choices.push(Cmd::BreakAdd(loc.clone()));
+                }
+                if mix.goto > 0 {
+                    choices.push(Cmd::Goto(loc.clone()));
+                }
+                if !choices.is_empty() {
+                    follow_up = Some(rng.pick(&choices).clone());
+                }
+            }
+        }
         items.push(Item {
             cmd,
             spell: rng.next_u64(),
         });
+        if let Some(cmd) = follow_up {
+            items.push(Item {
+                cmd,
+                spell: rng.next_u64(),
+            });
+        }
+    }
+    for (at, cmd) in &planted {
+        if *at >= n {
+            items.push(Item {
+                cmd: cmd.clone(),
+                spell: rng.next_u64(),
+            });
+        }
     }
     match end {
         EndStyle::Eof => {}
